@@ -159,6 +159,21 @@ func runC02(seed int64, n int, replay string, e *emitter) {
 			r.Shuffle(len(cmds), func(i, j int) { cmds[i], cmds[j] = cmds[j], cmds[i] })
 			c.Query = ints(base[:k] + base[k+1:])
 			c.Opts = eOpts{Limit: 5, Fuzzy: r.Intn(2) == 0, NLP: r.Intn(2) == 0, AllPlatforms: true}
+		case i%11 == 6:
+			// context keys as the directory analyzer produces them: a project word together with script / target names that
+			// contain it ("test" 1.5 beside "test-race" 1.3 and "test:unit" 2.5), and a query that uses the word
+			c.Kind = "ctxkeys"
+			cmds = eGenDB(r)
+			w := ePlain[r.Intn(12)]
+			for j := range cmds {
+				if j%2 == 0 {
+					cmds[j].Description = w + " " + cmds[j].Description
+				}
+			}
+			cmds = append(cmds, database.Command{Command: w + " --all", Description: "the " + w + " itself"})
+			c.Query = ints(w + " " + eWord(r))
+			c.Opts = eOpts{Limit: len(cmds) + 2, NLP: r.Intn(2) == 0, AllPlatforms: true,
+				Boosts: []eBoost{{Word: ints(w), F: "1.5"}, {Word: ints(w + "-race"), F: "1.3"}, {Word: ints(w + ":unit"), F: "2.5"}, {Word: ints("build-" + w), F: "1.1"}}}
 		case i%5 == 2:
 			c.Kind = "shared"
 			var q string
